@@ -619,7 +619,16 @@ def st_diff(draw):
         argv.append("--as-total=" + total)
     if draw(st.integers(0, 4)) == 0:
         argv.append("--utc")
-    argv += ["--", a1["text"], a2["text"]]
+    t1, t2 = a1["text"], a2["text"]
+    place = draw(st.sampled_from(["before", "before", "between", "after"]))
+    if place == "before" or t1[:1] in "+-" or t2[:1] in "+-":
+        argv += ["--", t1, t2]
+    elif place == "between":
+        # options may stand between (or after) the two date-times, as in the
+        # command's own synopsis: isodatetime A --offset1=... B
+        argv = [t1] + argv + [t2]
+    else:
+        argv = [t1, t2] + argv
     return {"kind": "diff", "mode": mode, "mode_via": via, "argv": argv,
             "env": env, "sys": list(draw(SYS)), "arg1": a1, "arg2": a2,
             "offsets1": o1, "offsets2": o2, "total": total}
